@@ -29,6 +29,8 @@ CONSTANTS
   TrampFlushed = TRUE
   Regen = FALSE
   SavedFrom = "install"
+  ForeignReuse = FALSE
+  AllocAt = "hint"
   UserCalls = TRUE
   MaxUserCalls = 1
   InstallKinds = {"jump", "bool"}
